@@ -226,6 +226,7 @@ def explore_config(prop, cfg, judge, max_executions=200000, invariant=None, coll
             t.flags[k] += st[k]
     if st['capped']:
         t.flags['execution_cap_hit'] += 1
+        t.note('execution/time cap hit in %s %s %r (%d states)' % (cfg['fn'], cfg['tag'], {k: v for k, v in cfg['kw'].items() if k != 'ci'}, st['states']))
     return t
 
 
